@@ -533,6 +533,9 @@ class Inliner:
         self._pending_recv = None
         call = None
         kind = None
+        if isinstance(st, ast.AnnAssign) and st.value is not None and isinstance(st.target, ast.Name):
+            # `v: T = helper(..)` is expanded like `v = helper(..)` (the annotation of a local carries no behaviour)
+            st = ast.copy_location(ast.Assign(targets=[st.target], value=st.value), st)
         # `x += helper(..)` with a plain local x: `t = helper(..); x += t`
         if isinstance(st, ast.AugAssign) and isinstance(st.value, ast.Call) and isinstance(st.target, ast.Name) and depth <= 3:
             tgt_, _ = self._target(fi, st.value)
@@ -723,6 +726,8 @@ class Inliner:
                 stores[n.targets[0].id] = stores.get(n.targets[0].id, 0) - 1
             if isinstance(n, ast.AnnAssign) and isinstance(n.target, ast.Name) and (n.value is None or (isinstance(n.value, ast.Constant) and n.value.value is None)):
                 stores[n.target.id] = stores.get(n.target.id, 0) - 1
+            if isinstance(n, ast.AnnAssign) and n.value is not None and isinstance(n.target, ast.Name):
+                n = ast.Assign(targets=[n.target], value=n.value)
             if isinstance(n, ast.Assign) and len(n.targets) == 1 and isinstance(n.targets[0], ast.Name):
                 val = n.value
                 if isinstance(val, ast.IfExp) and isinstance(val.orelse, ast.Constant) and val.orelse.value is None:
